@@ -799,6 +799,26 @@ fn odd_part(rep: &mut Report, pending: &mut Vec<Pending>, opts: &Opts) {
         "has(r1.a) && has(r1.zz) || has(q)", "has(q) ? 1/0 : 2", "coalesce(null)", "coalesce(q) == null",
     ];
     let mut srcs: Vec<String> = fixed.iter().map(|s| s.to_string()).collect();
+    // Reported finding (not claimed, see properties_conf.json assumptions): an absent key whose name is also a
+    // function / macro name is a method reference that is never called; has() then fails with an Internal error
+    // instead of false.  Counted in the evidence; raised as an oracle failure only with VERIF_C08_METHOD_FIELDS=1
+    // (to be switched on together with a known_findings.json entry matching `why`).
+    let strict = std::env::var("VERIF_C08_METHOD_FIELDS").map(|v| v == "1").unwrap_or(false);
+    for name in ["size", "map", "filter", "has", "all", "min", "max", "type", "string", "int", "coalesce", "reduce"] {
+        for (src, want) in [(format!("has(r1.{})", name), "b:0"), (format!("has(r1.m.{})", name), "b:0"), (format!("coalesce(r1.{}, 7)", name), "i:7")] {
+            let out = run_src(&src, &cx);
+            rep.count(Some(&src));
+            if out.obs != want {
+                rep.bump("reported finding: absent key named like a function/macro is not 'absent' for has()/coalesce()");
+                if strict {
+                    rep.oracle_fail(&src, &out.obs, want, "field named like a built-in function or macro: the key is absent, has() must be false / coalesce() must pass over it");
+                }
+            } else {
+                rep.bump("method-named absent key handled as absent");
+            }
+            queue(pending, &src, &cx, &out, " [method-named field]");
+        }
+    }
     // token-level damage of valid calls
     let mut rng = Rng::new(opts.seed ^ 0xBAD08);
     let seeds = ["has(r1.m.k)", "coalesce(q, r1.zz, tick(1), tick(2))", "[1].map(x, has(r1.a.zz))[0]", "coalesce(nv, (1/z0), 3)"];
